@@ -25,7 +25,7 @@ LEAN_TARGETS = ["OmplModel.Props.C17", DRIVER]
 B = core.f2bits
 F = core.bits2f
 
-BG_OBJECTIVES = ("toll", "tolli", "step", "stepi", "checker", "integral", "clear")
+BG_OBJECTIVES = ("toll", "tolli", "step", "stepi", "checker", "integral", "clear", "work")
 LOCKSTEP = ("collapse", "rope", "subdivide", "interp", "interpn", "reduce", "pshort")
 REMOVERS = ("collapse", "reduce")
 DENSIFIERS = ("subdivide", "interp", "interpn")
@@ -45,9 +45,12 @@ class Scenario:
         self.res = 0.01
         self.path = []        # list of tuples of floats (w values)
         self.goals = []
+        self.rho = 0.4        # Dubins turning radius
         self.oneway = None    # (ylo, yhi): direction-sensitive validator — inside the band no motion may go in +x direction
 
     def space_tokens(self):
+        if self.kind == "dubins":
+            return ["dubins", B(self.rho), "0"] + [B(self.lo)] * 2 + [B(self.hi)] * 2
         if self.kind == "se2":
             return ["se2"] + [B(self.lo)] * 2 + [B(self.hi)] * 2
         n = self.pdim
@@ -235,12 +238,12 @@ def gen_ops(rng, sc, tier):
     if sc.kind != "se2":
         seeds = [rng.below(1000) for _ in range(2 if tier == "quick" else 6)]
         for sd in seeds:
-            objs = ["len", "len", "integral", "clear"]
+            objs = ["len", "len", "integral", "clear", "work", "work"]
             o = lambda: rng.choice(objs)
             ops.append(("reduce", "rnd %d %s reduce %d %d %s" % (sd, "len", steps(), steps(), B(rr()))))
             ops.append(("pshort", "rnd %d %s pshort %d %d %s %s" % (sd, o(), steps(), steps(), B(rr()), B(snap()))))
             ops.append(("collapse", "rnd %d %s collapse %d %d" % (sd, "len", steps(), steps())))
-            ops.append(("rope", "rnd %d %s rope %s %s" % (sd, rng.choice(["len", "integral"]), B(rng.choice([L / 4, 1.0, 2.5 * L])), B(0.1))))
+            ops.append(("rope", "rnd %d %s rope %s %s" % (sd, rng.choice(["len", "integral", "work"]), B(rng.choice([L / 4, 1.0, 2.5 * L])), B(0.1))))
             ops.append(("bspline", "rnd %d %s bspline %d %s" % (sd, "len", rng.choice([0, 1, 3, 5]), B(rng.choice([2.2e-16, 1e-3, L / 100])))))
             ops.append(("perturb", "rnd %d %s perturb %s %d %d %s" % (sd, o(), B(rng.choice([0.3, 1.0, L, 3 * L])), steps(), steps(), B(snap()))))
             ops.append(("bettergoal", "rnd %d %s bettergoal %d %d %s %s" % (sd, o(), rng.choice([0, 3, 1000000]), rng.choice([1, 10]), B(rr()), B(snap()))))
@@ -350,6 +353,8 @@ def oracle(sc, routine, line, res, objective, goals_used):
     tol = 1e-9 * (sc.hi - sc.lo) * 10
     if any(math.isnan(x) or math.isinf(x) for s in out for x in s):
         return [("finite", "a non-finite coordinate in the result")]
+    if not inp_bits:
+        return [] if not out_bits else [("endpoints", "an empty path became a path of %d states" % len(out_bits))]
     if not out_bits:
         return [("endpoints", "empty result")]
     # --- endpoints
@@ -374,6 +379,8 @@ def oracle(sc, routine, line, res, objective, goals_used):
             return "c"
         if routine in REMOVERS:
             return None
+        if sc.kind == "dubins":
+            return "b"        # pieces of Dubins curves are not classified geometrically (only exact pairs are, for the removers)
         for a, b in segs:
             tx = on_segment(sc, x, a, b, tol)
             if tx is None:
@@ -435,9 +442,13 @@ def oracle(sc, routine, line, res, objective, goals_used):
     if base in LEN_MONOTONE and objective == "len":
         if res["len1"] > res["len0"] * (1 + rel) + 1e-12:
             fails.append(("never_longer", "length %r -> %r" % (res["len0"], res["len1"])))
-    if base in OWN_OBJECTIVE and objective in ("len",):
-        if res["cost1"] > res["cost0"] * (1 + rel) + 1e-12:
-            fails.append(("never_worse", "cost %r -> %r under %s" % (res["cost0"], res["cost1"], objective)))
+    if base in OWN_OBJECTIVE and objective in ("len", "work"):
+        # `work` = mechanical work over the linear height field h = y (ASYMMETRIC: climbing costs, descending is free): cuts are additive
+        # (y is interpolated linearly), so the routine's own direction-dependent comparison bounds path.cost(obj) exactly as for length.
+        # Dubins + path length: asymmetric distance, geodesic interpolation; tolerance 1e-6 for the Dubins classification noise.
+        tol_ = 1e-6 if sc.kind == "dubins" else rel
+        if res.get("worse", res["cost1"] > res["cost0"]) and res["cost1"] > res["cost0"] * (1 + tol_) + 1e-12:
+            fails.append(("never_worse", "cost %r -> %r under %s%s" % (res["cost0"], res["cost1"], objective, " (Dubins)" if sc.kind == "dubins" else "")))
     if base == "bettergoal" and objective != "len":
         # findBetterGoal compares COMPLETE candidate paths (cost to the sample + motion to the goal against costs.back()) with the very
         # sums path.cost(obj) uses, so path.cost(obj) itself must not get worse, whatever the objective (verdict of the objective's own
@@ -517,6 +528,13 @@ def classify_crash(line, err, ck=None, hchk=None, hdr=None):
     rnd = t[0] == "rnd"
     rt = t[3] if rnd else t[0]
     import re
+    npath = None
+    if hdr and len(hdr) > 2 and hdr[2].startswith("path "):
+        npath = int(hdr[2].split()[1])
+    if rt == "interp" and npath == 0 and "PathGeometric::interpolate()" in err:
+        return "interpolate-empty-path"
+    if rt == "perturb" and npath is not None and npath < 2 and "perturbPath" in err:
+        return "perturb-fewer-than-two-states"
     memerr = any(k in err for k in ("heap-buffer-overflow", "SEGV", "heap-use-after-free"))
     if memerr and rt == "perturb" and "selectAlongPath" in err and F(t[-1]) == 0.0:
         return "selectAlongPath-oob-snap0"
@@ -584,7 +602,7 @@ def run_scenario(ck, hbin, hchk, sc, ops, tag, seedtag):
         routine, line = ops[i]
         cls = classify_crash(line, err, ck, hchk, hdr)
         ck.count("crash:" + routine + ":" + cls)
-        issues.append(dict(kind="oracle", routine=routine, clause="indices_in_range" if cls in ("selectAlongPath-oob-snap0", "snap0-sample-at-path-end") else "crash", cls=cls,
+        issues.append(dict(kind="oracle", routine=routine, clause="indices_in_range" if cls in ("selectAlongPath-oob-snap0", "snap0-sample-at-path-end", "interpolate-empty-path", "perturb-fewer-than-two-states") else "crash", cls=cls,
                            detail="the routine does not return (rc=%s): %s" % (rc, err[:700] if rc != "timeout" else "no result within 30 s"),
                            script=hdr + [line], observed=[err[:1500]]))
     dscript = ["pathops", sc.env_line(), sc.states_line("path", sc.path)]
@@ -855,10 +873,15 @@ def gen_corner_scenario(rng):
         ops.append(("simplify", "rnd %d len simplify %d %d" % (rng.below(1000), rng.choice([0, 1, 2, 3, 4, 5, 6, 8, 10, 13, 17, 25, 40]), rng.below(2))))
     ops.append(("simplifymax", "rnd %d len simplifymax" % rng.below(1000)))
     ops.append(("pshort", "rnd %d len pshort 0 0 %s %s" % (rng.below(1000), B(0.33), B(0.005))))
+    # SWEEP: the termination condition fires at EVERY possible poll k = 0, 1, 2, … (same seed), with and without atLeastOnce
+    sd = rng.below(1000)
+    for k in range(0, 48):
+        ops.append(("simplify", "rnd %d len simplify %d %d" % (sd, k, k % 2)))
+        ops.append(("simplify", "rnd %d len simplify %d %d" % (sd, k, 1 - k % 2)))
     return sc, ops
 
 
-WHOLE_OBJ = ("len", "toll", "step", "checker")
+WHOLE_OBJ = ("len", "toll", "step", "checker", "work")
 
 
 def run_whole(ck, hbin, hchk, sc, rng, tag):
@@ -1134,6 +1157,305 @@ def gen_oneway(rng):
     return sc, ops
 
 
+# ------------------------------------------------------------------ PathGeometric's remaining methods (oracle-only, ASan)
+def py_clearance(sc, q):
+    best = float("inf")
+    for lo, hi in sc.boxes:
+        e2 = sum(max(max(lo[d] - q[d], 0.0), q[d] - hi[d]) ** 2 for d in range(sc.pdim))
+        best = min(best, math.sqrt(e2))
+    return best
+
+
+def py_smoothness(sc, pts):
+    s_ = 0.0
+    if len(pts) > 2:
+        a = dist(sc, pts[0], pts[1])
+        for i in range(2, len(pts)):
+            b = dist(sc, pts[i - 1], pts[i])
+            c_ = dist(sc, pts[i - 2], pts[i])
+            try:
+                ac = (a * a + b * b - c_ * c_) / (2.0 * a * b)
+            except ZeroDivisionError:
+                ac = float("nan")
+            if -1.0 < ac < 1.0:
+                k = 2.0 * (math.pi - math.acos(ac)) / (a + b)
+                s_ += k * k
+            a = b
+    return s_
+
+
+def py_closest(sc, pts, q):
+    if not pts:
+        return -1
+    best, bi = dist(sc, pts[0], q), 0
+    for i in range(1, len(pts)):
+        d = dist(sc, pts[i], q)
+        if d < best:
+            best, bi = d, i
+    return bi
+
+
+def run_pg(ck, hbin, sc, rng, tag):
+    """append / prepend / reverse / keepAfter / keepBefore / getClosestIndex / overlay / copies / length, cost, smoothness, clearance / print /
+    random / randomValid / clear on the scenario's path (and on its boundary variants), judged against an independent Python reading"""
+    if sc.kind not in ("rv2", "rv3"):
+        return []
+    issues = []
+    pts = list(sc.path)
+
+    def rq():
+        return tuple(rng.uniform(0.1, 9.9) for _ in range(sc.pdim))
+    variants = [pts, pts[:1], pts[:2], [], [pts[0]] * 3 if pts else [], pts[:1] + pts[-1:] * 2 + pts[1:2] if len(pts) >= 2 else pts]
+    for vi, v in enumerate(variants):
+        qs = [rq(), v[rng.below(len(v))] if v else rq(), tuple((a + b) / 2 for a, b in zip(v[0], v[-1])) if v else rq()]
+        other = [rq() for _ in range(rng.below(4))]
+        ops = [("reverse", "pg reverse"), ("metrics", "pg metrics"), ("print", "pg print"), ("copies", "pg copies"), ("clear", "pg clear"),
+               ("random", "pg random"), ("randomvalid", "pg randomvalid %d" % rng.choice([1, 5, 50])),
+               ("appendpath", sc.states_line("pg appendpath", other)),
+               ("overlay", "pg overlay %d %s" % (rng.below(len(v) + 2), sc.states_line("", other).strip()))]
+        for q in qs:
+            qt = " ".join(B(x) for x in q)
+            ops += [("prepend", "pg prepend " + qt), ("append", "pg append " + qt), ("keepafter", "pg keepafter " + qt), ("keepbefore", "pg keepbefore " + qt),
+                    ("closest", "pg closest " + qt)]
+        hdr = ["pathops", sc.env_line(), sc.states_line("path", v)]
+        impl, rc, err = run_h(ck, hbin, hdr + [l for _, l in ops], timeout=60)
+        if impl is None or rc != 0 or len(impl) != 2 + len(ops):
+            k = max(0, len(impl or []) - 2)
+            issues.append(dict(kind="oracle", routine="pathgeometric", clause="crash", cls=ops[min(k, len(ops) - 1)][0],
+                               detail="PathGeometric::%s does not return (rc=%s): %s" % (ops[min(k, len(ops) - 1)][0], rc, (err or "")[:500]),
+                               script=hdr + [ops[min(k, len(ops) - 1)][1]], observed=(impl or [])[-1:]))
+            continue
+        vb = [tuple(B(x) for x in q) for q in v]
+        for (m, line), o in zip(ops, impl[2:]):
+            ck.count("op:pg-" + m)
+            t = o.split()
+            ret = int(t[1])
+            k = int(t[3])
+            out = chunk(t[4:4 + k * sc.w], sc.w)
+            rest = t[4 + k * sc.w:]
+            chk = rest[-1] == "1"
+            vals = [F(x) for x in rest[1:5]] if rest and rest[0] == "vals" else None
+            a = line.split()
+            arg = fl(a[2:2 + sc.w]) if m in ("prepend", "append", "keepafter", "keepbefore", "closest") else None
+            argb = tuple(a[2:2 + sc.w]) if arg is not None else None
+            want = None
+            bad = None
+            if m == "reverse":
+                want = vb[::-1]
+            elif m == "prepend":
+                want = [argb] + vb
+            elif m == "append":
+                want = vb + [argb]
+            elif m == "appendpath":
+                want = vb + [tuple(B(x) for x in q) for q in other]
+            elif m in ("copies",):
+                want = vb
+                if ret != 0:
+                    bad = "clear() left %d states" % ret
+            elif m == "clear":
+                want = []
+            elif m == "closest":
+                want = vb
+                if ret != py_closest(sc, v, arg):
+                    bad = "getClosestIndex = %d, the first closest state is %d" % (ret, py_closest(sc, v, arg))
+            elif m in ("keepafter", "keepbefore"):
+                i = py_closest(sc, v, arg)
+                n = len(v)
+                if m == "keepafter":
+                    if i > 0:
+                        if i + 1 < n and dist(sc, arg, v[i - 1]) > dist(sc, arg, v[i + 1]):
+                            i += 1
+                        want = vb[i:]
+                    else:
+                        want = vb
+                else:
+                    if i >= 0:
+                        if i > 0 and i + 1 < n and dist(sc, arg, v[i - 1]) < dist(sc, arg, v[i + 1]):
+                            i -= 1
+                        want = vb[:i + 1]
+                    else:
+                        want = vb
+            elif m == "overlay":
+                start = int(a[2])
+                ob_ = [tuple(B(x) for x in q) for q in other]
+                if start > len(vb):
+                    want = vb
+                    if ret != 1:
+                        bad = "overlay beyond the end did not throw"
+                else:
+                    want = list(vb)
+                    for i_, q in enumerate(ob_):
+                        if start + i_ < len(want):
+                            want[start + i_] = q
+                        else:
+                            want.append(q)
+            elif m == "metrics":
+                want = vb
+                L_ = path_len(sc, v)
+                cl = (sum(py_clearance(sc, q) for q in v) / len(v)) if v else float("inf")
+                exp = [L_, L_, py_smoothness(sc, v), cl]
+                for name_, g_, e_ in zip(("length", "cost", "smoothness", "clearance"), vals, exp):
+                    if not (g_ == e_ or abs(g_ - e_) <= 1e-9 * max(1.0, abs(e_)) or (math.isnan(g_) and math.isnan(e_))):
+                        bad = "%s() = %r, recomputed %r" % (name_, g_, e_)
+            elif m == "print":
+                want = vb
+                if ret != (len(v) + 2) * 100000 + (len(v) + 1):
+                    bad = "print / printAsMatrix wrote %d / %d lines for %d states" % (ret // 100000, ret % 100000, len(v))
+            elif m == "random":
+                if len(out) != 2 or not all(sc.lo <= x <= sc.hi for q in out for x in fl(q)):
+                    bad = "random() did not leave two states inside the bounds"
+            elif m == "randomvalid":
+                if (ret == 1 and (len(out) != 2 or not chk)) or (ret == 0 and len(out) != 0):
+                    bad = "randomValid returned %d with %d states, check() = %s" % (ret, len(out), chk)
+            if want is not None and out != want:
+                bad = "result has %d states, expected %d (%s)" % (len(out), len(want), "same states" if sorted(out) == sorted(want) else "different states")
+            ck.case((tag, "pg", vi, line[:50]), m not in ("metrics", "print", "closest"))
+            if bad:
+                issues.append(dict(kind="oracle", routine="pathgeometric", clause=m, detail="PathGeometric::%s: %s" % (m, bad), script=hdr + [line], observed=[o]))
+        # lock-step of the index logic (reverse / prepend / append / keepAfter / keepBefore / getClosestIndex) against the Lean model
+        ls = [(m, line, o) for (m, line), o in zip(ops, impl[2:]) if m in ("reverse", "prepend", "append", "keepafter", "keepbefore", "closest")]
+        model, rc2, err2 = ck.run_bin(ck.driver(DRIVER), hdr + [l for _, l, _ in ls], timeout=60)
+        if rc2 != 0 or model is None or len(model) != 2 + len(ls):
+            issues.append(dict(kind="corr", routine="driver", clause="driver", detail="driver rc=%s" % rc2, script=hdr + [l for _, l, _ in ls], observed=model or []))
+        else:
+            for (m, line, o), mo_ in zip(ls, model[2:]):
+                ck.traces_validated += 1
+                k_ = int(o.split()[3])
+                pre = " ".join(o.split()[:4 + k_ * sc.w])
+                if pre != mo_:
+                    issues.append(dict(kind="corr", routine="pathgeometric-" + m, clause="lockstep", detail="model and implementation differ",
+                                       script=hdr + [line], dscript=hdr + [line], observed=[pre], model=[mo_]))
+    return issues
+
+
+def boundary_scenarios(rng):
+    """paths of 0 / 1 / 2 states, two equal states, all states equal, an exactly repeated state after a long segment"""
+    out = []
+    for name, mk in (("empty", lambda a, b, c_: []), ("one", lambda a, b, c_: [a]), ("two", lambda a, b, c_: [a, b]), ("two-equal", lambda a, b, c_: [a, a]),
+                     ("all-equal", lambda a, b, c_: [a] * 4), ("repeat-after-long", lambda a, b, c_: [a, b, b, c_]),
+                     ("repeat-first-last", lambda a, b, c_: [a, a, b, c_, c_])):
+        sc = Scenario()
+        sc.kind, sc.pdim, sc.w = "rv2", 2, 2
+        sc.res = rng.choice([0.01, 0.02])
+        a = (rng.uniform(0.5, 2.0), rng.uniform(0.5, 9.5))
+        b = (rng.uniform(8.0, 9.5), rng.uniform(0.5, 9.5))
+        c_ = (rng.uniform(4.0, 6.0), rng.uniform(0.5, 9.5))
+        sc.path = mk(a, b, c_)
+        sc.goals = [sc.path[-1]] if sc.path else [a]
+        out.append((name, sc))
+    return out
+
+
+def gen_boundary_ops(rng, sc):
+    n = len(sc.path)
+    ops = [("collapse", "collapse 0 0"), ("rope", "rope %s %s" % (B(1.0), B(0.1))), ("subdivide", "subdivide"), ("interp", "interp")]
+    for c_ in (0, 1, 2, n, n + 1, 2 * n + 3, 40):
+        ops.append(("interpn", "interpn %d" % c_))
+    ops.append(("reduce", "reduce 0 0 %s 4 0 1 2 3" % B(0.33)))
+    ops.append(("pshort", "pshort 0 0 %s %s 4 %s" % (B(0.33), B(0.005), " ".join(B(x) for x in (0.1, 0.9, 0.5, 0.5)))))
+    for sd in (1, 2):
+        for r_ in ("reduce 0 0 %s" % B(0.33), "pshort 0 0 %s %s" % (B(0.33), B(0.005)), "collapse 0 0", "rope %s %s" % (B(1.0), B(0.1)), "bspline 3 %s" % B(1e-3),
+                   "perturb %s 0 0 %s" % (B(1.0), B(0.005)), "bettergoal 100 5 %s %s" % (B(0.33), B(0.005)), "simplifymax", "simplify 3 0", "simplify 0 1"):
+            ops.append((r_.split()[0], "rnd %d len %s" % (sd, r_)))
+    return ops
+
+
+def gen_dubins(rng):
+    """ASYMMETRIC space: Dubins car (turning radius 0.3-0.6, not symmetric), no obstacles, path length = Dubins distance; the cost-aware
+    routines are held to their own (direction-dependent) objective, the vertex removers to exact direction-aware pairs"""
+    sc = Scenario()
+    sc.kind, sc.pdim, sc.w = "dubins", 2, 3
+    sc.res = 0.01
+    sc.rho = rng.choice([0.3, 0.4, 0.6])
+    n = rng.choice([3, 4, 6, 8])
+    sc.path = [(rng.uniform(2.5, 7.5), rng.uniform(2.5, 7.5), rng.uniform(-3.1, 3.1)) for _ in range(n)]
+    sc.goals = [sc.path[-1], (rng.uniform(3, 7), rng.uniform(3, 7), rng.uniform(-3.1, 3.1))]
+    ops = []
+    for _ in range(3):
+        sd = rng.below(100000)
+        ops += [("pshort", "rnd %d len pshort 0 0 %s %s" % (sd, B(rng.choice([0.33, 1.0])), B(rng.choice([0.005, 0.0])))),
+                ("rope", "rnd %d len rope %s %s" % (sd, B(rng.choice([1.0, 2.0, 50.0])), B(0.1))),
+                ("reduce", "rnd %d len reduce 0 0 %s" % (sd, B(1.0))), ("collapse", "rnd %d len collapse 0 0" % sd),
+                ("bettergoal", "rnd %d len bettergoal 1000000 20 %s %s" % (sd, B(1.0), B(0.005))),
+                ("perturb", "rnd %d len perturb %s 0 0 %s" % (sd, B(rng.choice([0.5, 1.5])), B(0.005))),
+                ("simplifymax", "rnd %d len simplifymax" % sd)]
+    ops += [("subdivide", "subdivide"), ("interpn", "interpn %d" % (2 * n + 3))]
+    return sc, ops
+
+
+def run_light(ck, hbin, sc, ops, tag):
+    """oracle only (no lock-step): used for the Dubins scenarios (the driver's space models do not include Dubins)"""
+    issues = []
+    hdr = ["pathops", sc.env_line(), sc.states_line("path", sc.path), sc.states_line("goals", sc.goals)]
+    h0, rc0, _ = run_h(ck, hbin, hdr, timeout=60)
+    if h0 is None or len(h0) < 3 or h0[1] != "ok chk=1":
+        ck.count("scenario:%s-input-not-valid-skipped" % tag)
+        return issues
+    outs, crashes = run_ops(ck, hbin, hdr, ops)
+    for i, rc, err in crashes:
+        issues.append(dict(kind="oracle", routine=ops[i][0], clause="crash", cls=classify_crash(ops[i][1], err),
+                           detail="the routine does not return (rc=%s): %s" % (rc, err[:600]), script=hdr + [ops[i][1]], observed=[err[:1200]]))
+    for idx, ((routine, line), o) in enumerate(zip(ops, outs)):
+        if o is None:
+            continue
+        ck.count("op:%s-%s" % (tag, routine))
+        res = parse_result(o, sc.w)
+        t = line.split()
+        objective = t[2] if t[0] == "rnd" else "len"
+        fails = oracle(sc, routine, line, res, objective, routine in ("bettergoal", "simplify", "simplifymax"))
+        # in a curved space the length of a densified path is compared at 1e-6
+        fails = [f_ for f_ in fails if not (sc.kind == "dubins" and f_[0] == "length_unchanged" and abs(res["len1"] - res["len0"]) <= 1e-6 * max(1.0, res["len0"]))]
+        ck.case((tag, idx, line[:40]), res["out"] != [tuple(B(x) for x in s_) for s_ in sc.path])
+        issues += [dict(kind="oracle", routine=routine, clause=f_[0], detail=f_[1] + " [%s]" % tag, cls=(f_[2] if len(f_) > 2 else None), objective=objective,
+                        script=hdr + [line], observed=[o]) for f_ in fails]
+    return issues
+
+
+def run_chain(ck, hbin, sc, rng, tag):
+    """HISTORIES: one PathSimplifier object, one path, several routines one after the other (freeStates on; off in a process without leak
+    detection, since freeStates(false) hands the removed states back to a caller who must free them); every step is judged with the previous
+    step's result as its input"""
+    if sc.kind not in ("rv2", "rv3") or len(sc.path) < 2:
+        return []
+    issues = []
+    L = max(path_len(sc, sc.path), 1e-3)
+    menu = ["pshort 0 0 %s %s" % (B(0.33), B(0.005)), "reduce 0 0 %s" % B(0.33), "collapse 0 0", "rope %s %s" % (B(max(L / 6, 0.3)), B(0.1)),
+            "bspline 2 %s" % B(1e-3), "perturb %s 0 0 %s" % (B(1.0), B(0.005)), "bettergoal 1000000 10 %s %s" % (B(0.33), B(0.005)),
+            "simplify %d %d" % (rng.choice([2, 5, 9, 1000000]), rng.below(2)), "simplifymax", "subdivide"]
+    for free in (1, 0):
+        steps = [rng.choice(menu) for _ in range(rng.range(3, 6))]
+        obj = rng.choice(["len", "len", "work", "toll"])
+        line = "chain %d %s %d %d %s" % (rng.below(100000), obj, free, len(steps), " ; ".join(steps))
+        hdr = ["pathops", sc.env_line(), sc.states_line("path", sc.path), sc.states_line("goals", sc.goals)]
+        h0, _, _ = run_h(ck, hbin, hdr, timeout=60)
+        if h0 is None or len(h0) < 3 or h0[1] != "ok chk=1":
+            return issues
+        impl, rc, err = ck.run_bin(hbin, hdr + [line], timeout=120, env=None if free else {"ASAN_OPTIONS": "detect_leaks=0:abort_on_error=0:exitcode=99"})
+        ck.count("op:chain-free%d" % free)
+        if impl is None or rc != 0 or len(impl) != 4 or not impl[3].startswith("chain"):
+            issues.append(dict(kind="oracle", routine="chain", clause="crash", cls=classify_crash("rnd 0 len " + steps[0], err or ""),
+                               detail="a history of routines on one PathSimplifier object does not return (rc=%s, freeStates=%d): %s" % (rc, free, (err or "")[:500]),
+                               script=hdr + [line], observed=(impl or [])[-1:]))
+            continue
+        cur = Scenario()
+        cur.__dict__.update(sc.__dict__)
+        for k, (step, part) in enumerate(zip(steps, impl[3].split(" || ")[1:])):
+            routine = step.split()[0]
+            res = parse_result(part, sc.w)
+            res["len0"], res["len1"] = path_len(cur, cur.path), path_len(cur, [fl(q) for q in res["out"]])
+            fails = oracle(cur, routine, "rnd 0 %s %s" % (obj, step), res, obj, routine in ("bettergoal", "simplify", "simplifymax"))
+            ck.case((tag, "chain", free, k, step[:30]), res["out"] != [tuple(B(x) for x in s_) for s_ in cur.path])
+            issues += [dict(kind="oracle", routine=routine, clause=f_[0], detail=f_[1] + " [step %d of a history on one PathSimplifier object, freeStates=%d]" % (k, free),
+                            cls=(f_[2] if len(f_) > 2 else None), objective=obj, script=hdr + [line], observed=[part[:300]]) for f_ in fails]
+            nxt = Scenario()
+            nxt.__dict__.update(cur.__dict__)
+            nxt.path = [fl(q) for q in res["out"]]
+            cur = nxt
+            if not cur.path:
+                break
+    return issues
+
+
 def gen_toll_scenario(rng):
     """directed for findBetterGoal under a cost field that is NOT proportional to length along a segment: a left-to-right path whose
     vertices avoid the toll corridor 3 < x < 4.5 (so the path itself crosses it for free under the end-point trapezoid rule) and
@@ -1227,9 +1549,10 @@ def gen_hybridseq(rng):
         steps.append("rec %d %d %s" % (rng.below(2), len(p), " ".join(B(x) for q in p for x in q)))
         if rng.chance(4, 5):
             steps.append("comp")
-        if rng.chance(1, 12):
+        if rng.chance(1, 5):
             steps.append("clear")
-            paths_marker = "clear"
+            if rng.chance(1, 2):
+                steps.append("comp")       # compute on the cleared object: there must be no path
     steps.append("comp")
     obj = rng.choice(["len", "len", "integral", "toll"])
     n = sum(1 for _ in steps)
@@ -1248,14 +1571,18 @@ def run_hybridseq(ck, hbin, rng):
     recorded = []
     fails = []
     ncomp = 0
+    cleared = False
     for k, part in enumerate(parts[1:-1]):
         t = part.split()
         if t[0] == "rec":
             recorded.append(F(t[3]))
         elif t[0] == "clear":
             recorded = []
+            cleared = True
         elif t[0] == "comp":
             ncomp += 1
+            if not recorded and cleared and t[1] != "none":
+                fails.append(("hybrid_clear", "step %d: after clear() and before any recordPath, computeHybridPath/getHybridPath still returns a path" % k))
             if t[1] == "none":
                 if recorded:
                     fails.append(("hybrid_le_best", "step %d: no hybrid path although %d paths are recorded" % (k, len(recorded))))
@@ -1461,6 +1788,18 @@ def run(ck):
             bsc, bops = gen_perturb_band(ck.rng.fork("band%d" % j))
             ck.count("scenario:perturb-band")
             futs.append(ex.submit(run_whole_ops, ck, hbin, bsc, bops, "band%d" % j))
+        for i, sc, ops, r in jobs[:(40 if ck.tier == "quick" else 300)]:
+            futs.append(ex.submit(run_pg, ck, hbin, sc, r.fork("pg"), i))
+            futs.append(ex.submit(run_chain, ck, hbin, sc, r.fork("chain"), i))
+        for j in range(2 if ck.tier == "quick" else 10):
+            for name, bsc in boundary_scenarios(ck.rng.fork("boundary%d" % j)):
+                ck.count("scenario:boundary-" + name)
+                futs.append(ex.submit(run_scenario, ck, hbin, hchk, bsc, gen_boundary_ops(ck.rng, bsc), "boundary-" + name, j))
+                futs.append(ex.submit(run_pg, ck, hbin, bsc, ck.rng.fork("bpg%d%s" % (j, name)), "boundary-" + name))
+        for j in range(15 if ck.tier == "quick" else 120):
+            usc, uops = gen_dubins(ck.rng.fork("dubins%d" % j))
+            ck.count("scenario:dubins")
+            futs.append(ex.submit(run_light, ck, hbin, usc, uops, "dubins"))
         for j in range(20 if ck.tier == "quick" else 150):
             dsc, dops = gen_perturb_dense(ck.rng.fork("dense%d" % j))
             ck.count("scenario:perturb-dense")
@@ -1556,7 +1895,11 @@ MANIFEST = {
             "the oracle's validated-motions classification is direction-aware (checkMotion(a,b), not (b,a)), a direction-sensitive "
             "validator (one-way zone) is part of the scenarios, and the model follows the tree after fix F170 (partialShortcutPath asks "
             "checkMotion in path order; the sampling-order code is kept as the former variant with a witness theorem, and behaving like "
-            "it is a violation).",
+            "it is a violation). Round 7: every PathGeometric method is driven (keepAfter / keepBefore / getClosestIndex modelled and in lock-step, the "
+            "rest judged against an independent Python reading), asymmetric objective (mechanical work) and Dubins space for the cost-aware "
+            "routines, histories on one PathSimplifier object (freeStates on / off), a ptc sweep over every poll of simplify, boundary "
+            "paths (0 / 1 / 2 states, all equal, repeated states); open findings F171 (interpolate() on an empty path) and F172 "
+            "(perturbPath on fewer than two states).",
     "note": "Trusted: Lean kernel, the three standard axioms, the hand-written models outside the explored scripts, the harness "
             "(which compiles the two source files under test into its own translation unit, proxies the private rng_ and installs a "
             "scripted sampler), the Python oracle's geometry, boost's Dijkstra (assumed to return a shortest walk). IEEE rounding is "
